@@ -689,7 +689,23 @@ func (fsys *BackupFS) Rollback() (multiErr error) {
 			// finished
 			continue
 		} else if TrimVolume(path) == separator {
-			// skip root directory from restoration
+			// the root directory is not restored, but it has to exist: nothing
+			// below it could be restored otherwise (RemoveAll("/") through a
+			// PrefixFS removes the prefix directory itself)
+			_, exists, err = lexists(fsys.base, path)
+			if err != nil {
+				multiErr = errors.Join(
+					multiErr,
+					fmt.Errorf("failed to check whether the root exists in base filesystem: %w", err),
+				)
+				continue
+			}
+			if !exists {
+				err = fsys.base.MkdirAll(path, info.Mode().Perm())
+				if err != nil {
+					multiErr = errors.Join(multiErr, err)
+				}
+			}
 			continue
 		}
 
